@@ -118,6 +118,10 @@ Section Generic.
       eapply (iter_visible (exec St p) (IHp Hnd)); eauto.
     - intros st o st' o' tr H. simpl in H.
       eapply (iter_visible _ (io_checked_visible DAny (fun s => s))); eauto.
+    - intros st o st' o' tr H. simpl in H.
+      destruct (exec St p1 st o) as [[[[r1 l1] st1] o1] t1] eqn:E1. destruct r1.
+      + inversion H; subst. eapply IHp1; eauto.
+      + destruct (exec St p2 st1 o1) as [[[[r2 l2] st2] o2] t2]. inversion H.
   Qed.
 
   (** a run in which no device call failed does not depend on the oracle: it IS the fault-free run *)
@@ -166,6 +170,17 @@ Section Generic.
     - destruct (c st); eauto.
     - eapply (iter_free _ IHp); eauto.
     - eapply (iter_free _ (io_checked_free DAny (fun s => s))); eauto.
+    - destruct (exec St p1 st o) as [[[[r1 l1] st1] o1] t1] eqn:E1. destruct r1.
+      + inversion H; subst. rewrite (IHp1 _ _ _ _ _ _ _ E1 Hc). reflexivity.
+      + destruct (exec St p2 st1 o1) as [[[[r2 l2] st2] o2] t2] eqn:E2.
+        inversion H; subst. rewrite clean_app in Hc. apply andb_true_iff in Hc. destruct Hc as [C1 C2].
+        rewrite (IHp1 _ _ _ _ _ _ _ E1 C1), (IHp2 _ _ _ _ _ _ _ E2 C2). reflexivity.
+    - destruct (exec St p1 st o) as [[[[r1 l1] st1] o1] t1] eqn:E1.
+      destruct (fn_ok r1 l1) eqn:F.
+      + inversion H; subst. rewrite (IHp1 _ _ _ _ _ _ _ E1 Hc), F. reflexivity.
+      + destruct (exec St p2 st1 o1) as [[[[r2 l2] st2] o2] t2] eqn:E2.
+        inversion H; subst. rewrite clean_app in Hc. apply andb_true_iff in Hc. destruct Hc as [C1 C2].
+        rewrite (IHp1 _ _ _ _ _ _ _ E1 C1), F, (IHp2 _ _ _ _ _ _ _ E2 C2). reflexivity.
   Qed.
 
   Lemma exec_seq_ok : forall a b st o st' o' tr,
@@ -253,7 +268,8 @@ Section Generic.
     | Upd f => forall s, Q s -> Q (f s)
     | Io _ onfail => forall s, Q s -> Q (onfail s)
     | Call _ q | CallLate _ q | CallDrop _ q | Loop _ q => upd_pres Q q
-    | Seq a b | If _ a b => upd_pres Q a /\ upd_pres Q b
+    | Seq a b | If _ a b | OnFail a b => upd_pres Q a /\ upd_pres Q b
+    | CallElse _ a _ b onret => upd_pres Q a /\ upd_pres Q b /\ (forall s, Q s -> Q (onret s))
     | _ => True
     end.
 
@@ -290,6 +306,45 @@ Section Generic.
     - eapply (iter_pres Q (io_checked St DAny (fun s => s))); eauto.
       intros s1 oo r1 l1 s2 o2 t1 E HQ1. unfold io_checked in E. destruct (next oo) as [b o3].
       destruct b; inversion E; subst; auto.
+    - destruct Hp as [Ha Hb].
+      destruct (exec St p1 st o) as [[[[r1 l1] st1] o1] t1] eqn:E1. destruct r1.
+      + inversion H; subst. eapply IHp1; eauto.
+      + destruct (exec St p2 st1 o1) as [[[[r2 l2] st2] o2] t2] eqn:E2. inversion H; subst.
+        eapply IHp2; eauto. eapply IHp1; eauto.
+    - destruct Hp as (Ha & Hb & Hr).
+      destruct (exec St p1 st o) as [[[[r1 l1] st1] o1] t1] eqn:E1.
+      destruct (fn_ok r1 l1).
+      + inversion H; subst. eapply IHp1; eauto.
+      + destruct (exec St p2 st1 o1) as [[[[r2 l2] st2] o2] t2] eqn:E2. inversion H; subst.
+        assert (Q st2) by (eapply IHp2; eauto; eapply IHp1; eauto).
+        destruct (fn_ok r2 l2); auto.
+  Qed.
+
+  (** visibility from the states that satisfy a precondition *)
+  Definition visible_from (Q : St -> Prop) (p : prog) : Prop :=
+    forall st o st' o' tr, Q st -> exec St p st o = (ROk, false, st', o', tr) -> clean tr = true.
+
+  Lemma visible_from_any : forall (Q : St -> Prop) p, visible_prog p -> visible_from Q p.
+  Proof. intros Q p H st o st' o' tr _ E. eapply H; eauto. Qed.
+
+  Lemma visible_from_seq : forall (Q : St -> Prop) a b, visible_from Q a -> upd_pres Q a -> visible_from Q b ->
+    visible_from Q (Seq a b).
+  Proof.
+    intros Q a b Ha Hpa Hb st o st' o' tr HQ H.
+    apply exec_seq_ok in H. destruct H as (s1 & o1 & t1 & t2 & E1 & E2 & ->).
+    rewrite clean_app, (Ha _ _ _ _ _ HQ E1).
+    rewrite (Hb _ _ _ _ _ (exec_pres Q a Hpa _ _ _ _ _ _ _ E1 HQ) E2). reflexivity.
+  Qed.
+
+  Lemma visible_from_if_false : forall (Q : St -> Prop) c a b, (forall st, Q st -> c st = false) -> visible_from Q b ->
+    visible_from Q (If c a b).
+  Proof.
+    intros Q c a b Hc Hb st o st' o' tr HQ H. simpl in H. rewrite (Hc _ HQ) in H. eapply Hb; eauto.
+  Qed.
+
+  Lemma visible_from_call : forall (Q : St -> Prop) n q, visible_from Q q -> visible_from Q (Call n q).
+  Proof.
+    intros Q n q Hq st o st' o' tr HQ H. apply exec_call_ok in H. eapply Hq; eauto.
   Qed.
 End Generic.
 
@@ -340,6 +395,7 @@ Proof.
   apply visible_seq; [apply no_dropped_visible; reflexivity|].
   apply visible_seq; [apply no_dropped_visible; reflexivity|].
   apply visible_seq; [apply no_dropped_visible; reflexivity|].
+  apply visible_seq; [apply no_dropped_visible; reflexivity|].
   apply visible_if; [|apply no_dropped_visible; reflexivity].
   apply visible_seq; [apply no_dropped_visible; reflexivity|].
   apply visible_seq; [apply no_dropped_visible; reflexivity|].
@@ -376,7 +432,7 @@ Proof. intros. apply no_dropped_visible. reflexivity. Qed.
 Definition st_plain : frec :=
   {| cur_off := 0; last_op := OpUnknown; end_off := 100; cache := false; dirty_dd := false; dirty_end := false;
      blocks := [ {| b_off := 2; b_dirty := false; b_ndds := 16 |} ]; cursor := 0%nat; refcount := 1; attach := 0;
-     vmod := false; vcalls := 0%nat; file_open := true |}.
+     vmod := false; vcalls := 0%nat; file_open := true; writable := true; own_aid := false |}.
 
 Lemma hclose_orig_refuted_lemma :
   exists st o st' o' tr, run_fn frec Hclose_prog_orig st o = (true, st', o', tr) /\ clean tr = false.
@@ -412,9 +468,12 @@ Proof. reflexivity. Qed.
 (** every I/O call site of every anchored function hands a failure on (checked, late or returned), except the one
     site listed here: HIrelease_filerec_node's HI_CLOSE, which [hclose_tail_visible] shows is never reached with an
     open file on the close path (the file was closed, and forgotten, just before) *)
-Definition cls_ok (c : cls) : bool := match c with Dropped => false | _ => true end.
+Definition cls_ok (c : cls) : bool := match c with Dropped | Diverted => false | _ => true end.
+(** ... and ncclose's NC_endef (on failure ncclose returns ncabort's result): only in netCDF define mode, which an SD
+    file never is in ([fact_SDstart_clears_NC_INDEF], regenerated from mfsd.c) *)
 Definition excused (fn callee : string) : bool :=
-  (String.eqb fn "HIrelease_filerec_node" && String.eqb callee "HI_CLOSE").
+  (String.eqb fn "HIrelease_filerec_node" && String.eqb callee "HI_CLOSE") ||
+  (String.eqb fn "ncclose" && String.eqb callee "NC_endef" && fact_SDstart_clears_NC_INDEF).
 Definition fn_sites_ok (f : string * list (string * cls)) : bool :=
   forallb (fun s => cls_ok (snd s) || excused (fst f) (fst s)) (snd f).
 
@@ -437,6 +496,7 @@ Proof.
   induction p; simpl; intros H; try reflexivity; try discriminate; auto.
   - apply andb_true_iff in H. destruct H. rewrite forallb_app, IHp1, IHp2; auto.
   - apply andb_true_iff in H. destruct H. rewrite forallb_app, IHp1, IHp2; auto.
+  - rewrite forallb_app, IHp1; auto. simpl. clear. induction (sites St p2); simpl; auto.
 Qed.
 
 (* ------------------------------------------------------------------------------------------------------------ *)
@@ -446,7 +506,8 @@ Definition st_cached : frec :=
   {| cur_off := 40; last_op := OpWrite; end_off := 700; cache := true; dirty_dd := true; dirty_end := true;
      blocks := [ {| b_off := 2; b_dirty := true; b_ndds := 4 |}; {| b_off := 300; b_dirty := false; b_ndds := 4 |};
                  {| b_off := 500; b_dirty := true; b_ndds := 4 |} ];
-     cursor := 0%nat; refcount := 1; attach := 0; vmod := true; vcalls := 3%nat; file_open := true |}.
+     cursor := 0%nat; refcount := 1; attach := 0; vmod := true; vcalls := 3%nat; file_open := true;
+     writable := true; own_aid := false |}.
 
 (* ------------------------------------------------------------------------------------------------------------ *)
 (** * Statements exactly as they appear in Properties_C16.v *)
@@ -467,9 +528,96 @@ Proof.
   repeat split; try assumption. exact hclose_visible.
 Qed.
 
-Lemma anchored_table_fault_visible_partial_lemma : forall (St : Type) (p : prog St), no_dropped St p = true ->
+Lemma anchored_table_fault_visible_lemma : forall (St : Type) (p : prog St), no_dropped St p = true ->
   visible_prog St p /\ forallb (fun s => cls_ok (snd s)) (sites St p) = true.
 Proof. intros St p H. split; [exact (no_dropped_visible St p H)|exact (sites_ok_no_dropped_shallow St p H)]. Qed.
 
 Lemma workload_hypothesis_met_lemma : Forall (visible_prog frec) [Hsync_prog; Hclose_prog].
 Proof. repeat constructor; [apply no_dropped_visible; reflexivity|exact hclose_visible]. Qed.
+
+(* ------------------------------------------------------------------------------------------------------------ *)
+(** * The anchored functions above L1: call-site skeleton = generated table, and fault visibility *)
+
+Lemma upper_model_matches_source_lemma :
+  sites genv HPread_drec_prog = norm_sites sites_HPread_drec /\
+  sites genv Vdetach_prog = norm_sites sites_Vdetach /\
+  sites genv VSdetach_prog = norm_sites sites_VSdetach /\
+  sites genv mcache_sync_prog = norm_sites sites_mcache_sync /\
+  sites genv HMCPcloseAID_prog = norm_sites sites_HMCPcloseAID /\
+  sites genv HMCPendaccess_prog = norm_sites sites_HMCPendaccess /\
+  sites genv NC_free_cdf_prog = norm_sites sites_NC_free_cdf /\
+  sites genv hdf_close_prog = norm_sites sites_hdf_close /\
+  sites genv hdf_xdr_cdf_prog = norm_sites sites_hdf_xdr_cdf /\
+  sites genv xdr_cdf_prog = norm_sites sites_xdr_cdf /\
+  sites genv ncclose_prog = norm_sites sites_ncclose /\
+  sites genv SDend_prog = norm_sites sites_SDend /\
+  sites genv SDendaccess_prog = norm_sites sites_SDendaccess.
+Proof. repeat split; reflexivity. Qed.
+
+(** eleven of them have no dropped site at any depth *)
+Lemma upper_functions_visible :
+  visible_prog genv HPread_drec_prog /\ visible_prog genv Vdetach_prog /\ visible_prog genv VSdetach_prog /\
+  visible_prog genv mcache_sync_prog /\ visible_prog genv HMCPcloseAID_prog /\
+  visible_prog genv HMCPendaccess_prog /\ visible_prog genv NC_free_cdf_prog /\ visible_prog genv hdf_close_prog /\
+  visible_prog genv hdf_xdr_cdf_prog /\ visible_prog genv xdr_cdf_prog /\ visible_prog genv SDendaccess_prog.
+Proof. repeat split; apply no_dropped_visible; reflexivity. Qed.
+
+(** ncclose and SDend: outside netCDF define mode *)
+Definition not_indef (s : genv) : Prop := indef s = false.
+
+Ltac pres_genv := simpl; repeat split; intros s Hs; try exact Hs; destruct s; simpl in *; exact Hs.
+
+Lemma ncclose_visible : visible_from genv not_indef ncclose_prog.
+Proof.
+  unfold ncclose_prog.
+  apply visible_from_seq; [apply visible_from_any, no_dropped_visible; reflexivity|unfold not_indef; pres_genv|].
+  apply visible_from_seq.
+  - apply visible_from_if_false; [intros st H; exact H|].
+    apply visible_from_any, no_dropped_visible; reflexivity.
+  - unfold not_indef; pres_genv.
+  - apply visible_from_any, no_dropped_visible; reflexivity.
+Qed.
+
+Lemma SDend_visible : visible_from genv not_indef SDend_prog.
+Proof.
+  unfold SDend_prog.
+  apply visible_from_seq; [apply visible_from_any, no_dropped_visible; reflexivity|unfold not_indef; pres_genv|].
+  apply visible_from_seq; [apply visible_from_any, no_dropped_visible; reflexivity|unfold not_indef; pres_genv|].
+  apply visible_from_call. exact ncclose_visible.
+Qed.
+
+(** in define mode the property FAILS for ncclose as written: NC_endef fails, ncabort succeeds, ncclose returns 0 *)
+Definition env_indef : genv :=
+  {| choices := [false]; trips := []; counts := [1%nat; 0%nat]; cur := O; indef := true; decode := false;
+     returned := false |}.
+Lemma ncclose_indef_refuted_lemma :
+  exists st o st' o' tr, indef st = true /\ run_fn genv ncclose_prog st o = (true, st', o', tr) /\ clean tr = false.
+Proof. exists env_indef, [true]. eexists. eexists. eexists. split; [reflexivity|]. split; [vm_compute; reflexivity|reflexivity]. Qed.
+
+Lemma anchored_functions_fault_visible_lemma :
+  (* L1 (file record) *)
+  ((forall off, visible_prog frec (HPseek_prog off)) /\ (forall n, visible_prog frec (HP_write_prog n)) /\
+   (forall n, visible_prog frec (HP_read_prog n)) /\ visible_prog frec hi_close_prog /\
+   visible_prog frec HIextend_file_prog /\ visible_prog frec HTPsync_prog /\ visible_prog frec HIsync_prog /\
+   visible_prog frec HTPend_prog /\ visible_prog frec HIupdate_version_prog /\ visible_prog frec Hsync_prog /\
+   visible_prog frec Hclose_prog) /\
+  (* above L1 (every resolution of the data-dependent branches) *)
+  (visible_prog genv HPread_drec_prog /\ visible_prog genv Vdetach_prog /\ visible_prog genv VSdetach_prog /\
+   visible_prog genv mcache_sync_prog /\ visible_prog genv HMCPcloseAID_prog /\
+   visible_prog genv HMCPendaccess_prog /\ visible_prog genv NC_free_cdf_prog /\ visible_prog genv hdf_close_prog /\
+   visible_prog genv hdf_xdr_cdf_prog /\ visible_prog genv xdr_cdf_prog /\ visible_prog genv SDendaccess_prog) /\
+  (* the two that need "not in netCDF define mode" *)
+  (fact_SDstart_clears_NC_INDEF = true /\ visible_from genv not_indef ncclose_prog /\
+   visible_from genv not_indef SDend_prog).
+Proof.
+  split; [exact l1_functions_fault_visible_lemma|]. split; [exact upper_functions_visible|].
+  split; [reflexivity|]. split; [exact ncclose_visible|exact SDend_visible].
+Qed.
+
+(** non-vacuity for the upper functions: an environment in which SDend really walks through xdr_cdf, hdf_close and
+    NC_free_cdf *)
+Definition env_sdend : genv :=
+  {| choices := [false; true; true; true; true; true; false; false; false; true; false; true; false; true; true; true;
+                 false; true; false; false; true; false; true; false; false; false];
+     trips := [2%nat]; counts := [2%nat; 3%nat; 1%nat; 1%nat; 1%nat; 1%nat; 2%nat; 4%nat]; cur := O; indef := false;
+     decode := false; returned := false |}.
